@@ -11,6 +11,8 @@
 (*                that was written on one line)                              *)
 (*   bracecomment func testN() bool { // note      (comment after the brace) *)
 (*   failingoneline   func failing_testN() bool { return true }             *)
+(*   bigcomment   about 5000 bytes of // comment lines (pushes what follows    *)
+(*                past any 4096-byte read buffer)                            *)
 (*   disabled     func disabled_testN(...                                   *)
 (*   helper       func helperN(...                                          *)
 (*   method       func (r *T) testN(...      a method, not a top-level function *)
@@ -21,14 +23,15 @@
 (*   onelinecomment   /* text */     a one-line block comment at column 0   *)
 (* File kinds: src (x.go), testish (x_tests.go: an ordinary source whose    *)
 (* name merely contains _test), gotest (x_test.go), gold (x.gold.v),        *)
-(* exttest (x_test.go whose package clause is <pkg>_test), backup (x.go~).   *)
+(* exttest (x_test.go whose package clause is <pkg>_test), backup (x.go~),   *)
+(* symsrc (x.go that is a symbolic link to a source file elsewhere: a src).  *)
 (* Only src and testish files are read.                                     *)
 EXTENDS Integers, Sequences, TLC, Json
 
 CONSTANT Cases        \* sequence of directories: each a sequence of [kind, name, lines: Seq([class, n])]
 
 IsTestLine(l) == l.class \in {"test", "failing", "underscore", "unicode", "oneline", "bracecomment", "failingoneline"}
-Read(f) == f.kind \in {"src", "testish"}
+Read(f) == f.kind \in {"src", "testish", "symsrc"}
 
 RECURSIVE LineTests(_, _)
 LineTests(lines, i) == IF i > Len(lines) THEN <<>>
